@@ -318,8 +318,13 @@ static int remoteSync(MPT_INTERFACE(output) *out, int timeout)
 			msg.cont = 0;
 			msg.clen = 0;
 			
-			if (ans->cmd(ans->arg, &msg) < 0) {
-				return 0;
+			/* request is answered: release registration before the handler runs */
+			{
+				int (*reply)() = ans->cmd;
+				ans->cmd = 0;
+				if (reply(ans->arg, &msg) < 0) {
+					return 0;
+				}
 			}
 			continue;
 		}
